@@ -997,3 +997,102 @@ CATALOGUE['C12'] = [
         try:
             if not data['previous-sequence']:"""),
 ]
+
+# --------------------------------------------------------------------- C13
+CATALOGUE['C13'] = [
+    V('reverse in place', 'DT_In.py',
+      """        s = list(sequence)
+        s.reverse()
+        return s""",
+      """        sequence.reverse()
+        return sequence""", 'C13.R1'),
+    V('sort appends to the input', 'DT_In.py',
+      """        sequence = []
+        for k, client in s:
+            sequence.append(client)
+        return sequence""",
+      """        del sequence[:]
+        for k, client in s:
+            sequence.append(client)
+        return sequence""", 'C13.R1'),
+    V('reverse via alias then mutate', 'DT_In.py',
+      """        s = list(sequence)
+        s.reverse()
+        return s""",
+      """        s = sequence
+        s.reverse()
+        return s""", 'C13.R1'),
+    V('renderwb sorts the looked-up list directly', 'DT_In.py',
+      """        if self.sort_expr is not None:
+            self.sort = self.sort_expr.eval(md)
+            sequence = self.sort_sequence(sequence, md)
+        elif self.sort is not None:
+            sequence = self.sort_sequence(sequence, md)
+
+        if self.reverse_expr is not None and self.reverse_expr.eval(md):
+            sequence = self.reverse_sequence(sequence)
+        elif self.reverse is not None:
+            sequence = self.reverse_sequence(sequence)
+
+        next = previous = 0""",
+      """        if self.sort_expr is not None:
+            self.sort = self.sort_expr.eval(md)
+            sequence = self.sort_sequence(sequence, md)
+        elif self.sort is not None:
+            sequence = self.sort_sequence(sequence, md)
+
+        if self.reverse_expr is not None and self.reverse_expr.eval(md):
+            sequence = self.reverse_sequence(sequence)
+        elif self.reverse is not None:
+            sequence.reverse()
+
+        next = previous = 0""", 'C13.R1'),
+    V('unkeyed sort', 'DT_In.py',
+      "            s.sort(key=itemgetter(0))", "            s.sort()",
+      'C13.R2'),
+    V('sort keyed on the element', 'DT_In.py',
+      "            s.sort(key=itemgetter(0))",
+      "            s.sort(key=itemgetter(1))", 'C13.R2'),
+    V('predicate on the value (the repaired defect)', 'DT_In.py',
+      "if not basic_type(type(akey)) and callable(akey):",
+      "if not basic_type(akey) and callable(akey):", 'C13.R3'),
+    V('twins: single branch calls non-callables (the repaired defect)',
+      'DT_In.py',
+      "if not basic_type(type(k)) and callable(k):",
+      "if not basic_type(type(k)):", 'C13.R4'),
+    V('twins: multi keeps failing callable', 'DT_In.py',
+      """                            except Exception:
+                                akey = _Smallest""",
+      """                            except Exception:
+                                pass""", 'C13.R4'),
+    V('twins: None handling dropped in single', 'DT_In.py',
+      """                    if k is None:
+                        k = _Smallest
+""", "", 'C13.R4'),
+    V('desc maps to +1', 'DT_In.py', "            multiplier = -1",
+      "            multiplier = +1", 'C13.R5'),
+    V('unknown direction accepted', 'DT_In.py',
+      """        else:
+            raise SyntaxError("sort oder must be either ASC or DESC")""",
+      """        else:
+            multiplier = +1""", 'C13.R5'),
+    V('comparator ignores direction', 'DT_In.py',
+      "                return n * multiplier", "                return n",
+      'C13.R5'),
+    # silent
+    V('silent: sorted() copy then reverse', 'DT_In.py',
+      """        s = list(sequence)
+        s.reverse()
+        return s""",
+      """        s = [x for x in sequence]
+        s.reverse()
+        return s"""),
+    V('silent: rename key variable in single branch', 'DT_In.py',
+      """        s = []
+        for client in sequence:
+            k = None""",
+      """        s = []
+        for client in sequence:
+            k = None
+            unused = k"""),
+]
